@@ -35,17 +35,19 @@ class TocRenderer(HtmlRenderer):
         """
         Returns table of contents as a block_token.List instance.
         """
-        def get_indent(level):
-            if self.omit_title:
-                level -= 1
-            return ' ' * 4 * (level - 1)
-
-        def build_list_item(heading):
-            level, content = heading
+        def build_list_item(depth, content):
             template = '{indent}- {content}\n'
-            return template.format(indent=get_indent(level), content=content)
+            return template.format(indent=' ' * 4 * depth, content=content)
 
-        lines = [build_list_item(heading) for heading in self._headings]
+        # nest every entry under the closest preceding entry of a smaller level,
+        # so that the first entry is never indented and no nesting step is skipped
+        lines = []
+        open_levels = []
+        for level, content in self._headings:
+            while open_levels and open_levels[-1] >= level:
+                open_levels.pop()
+            lines.append(build_list_item(len(open_levels), content))
+            open_levels.append(level)
         items = block_token.tokenize(lines)
         return items[0]
 
